@@ -271,6 +271,7 @@ def ScanOK (w : WSt) : Scan → Prop
   | .idle => True
   | .gotObj g => g ≤ w.gen
   | .gotFlag g _ => g ≤ w.gen
+  | .gotId g _ => g < w.gen ∨ (g = w.gen ∧ w.known = true)
   | .gotOs g _ os => g < w.gen ∨ (g = w.gen ∧ (os = false → w.phase = .gone))
   | .gotFlag2 g _ _ f2 => g < w.gen ∨ (g = w.gen ∧ f2 = false)
   | .verdict d => d = false
@@ -282,19 +283,27 @@ def J (s : DSt) : Prop :=
 
 theorem everKilled_back (s s' : DSt) (e : DEv) (hs : dstep s e = some s') (hk : s'.everKilled = false) :
     s.everKilled = false ∧ e ≠ .kill := by
-  obtain ⟨⟨ph, fl, os, k, g⟩, old, sc, ek⟩ := s
+  obtain ⟨⟨ph, fl, os, k, g, kn⟩, old, sc, ek⟩ := s
   cases e <;> simp only [dstep] at hs
+  all_goals (try split at hs)
   all_goals (try split at hs)
   all_goals (try split at hs)
   all_goals (first | (injection hs with hs; subst hs; simp_all) | simp at hs)
 
 theorem J_step (s s' : DSt) (e : DEv) (hs : dstep s e = some s') (he : e ≠ .kill) (hJ : J s) : J s' := by
-  obtain ⟨⟨ph, fl, os, k, g⟩, old, sc, ek⟩ := s
+  obtain ⟨⟨ph, fl, os, k, g, kn⟩, old, sc, ek⟩ := s
   obtain ⟨h1, h2, h3, h4, h5⟩ := hJ
   simp only at h1 h2 h3 h4 h5
   subst h1 h4
   cases e with
   | kill => exact absurd rfl he
+  | startReturns =>
+    simp only [dstep] at hs
+    split at hs
+    · simp at hs
+    · injection hs with hs; subst hs
+      refine ⟨rfl, h2, h3, rfl, ?_⟩
+      cases sc <;> simp_all [ScanOK]
   | signalAlive =>
     simp only [dstep] at hs
     split at hs
@@ -344,12 +353,31 @@ theorem J_step (s s' : DSt) (e : DEv) (hs : dstep s e = some s') (he : e ≠ .ki
       exact ⟨rfl, h2, h3, rfl, Nat.le_refl _⟩
     · injection hs with hs; subst hs
       exact ⟨rfl, h2, h3, rfl, h5⟩
-    · injection hs with hs; subst hs
-      refine ⟨rfl, h2, h3, rfl, ?_⟩
-      simp only [ScanOK] at h5 ⊢
+    · rename_i g' f1
+      simp only [ScanOK] at h5
       rcases Nat.lt_or_eq_of_le h5 with h | h
+      · have hne : g' ≠ g := Nat.ne_of_lt h
+        simp only [hne, if_false, if_true] at hs
+        injection hs with hs; subst hs
+        exact ⟨rfl, h2, h3, rfl, Or.inl h⟩
+      · subst h
+        cases kn
+        · simp only [if_true] at hs
+          simp at hs
+          subst hs
+          exact ⟨rfl, h2, h3, rfl, rfl⟩
+        · simp only [if_true] at hs
+          injection hs with hs; subst hs
+          exact ⟨rfl, h2, h3, rfl, Or.inr ⟨rfl, rfl⟩⟩
+    · rename_i g' f1
+      simp only [ScanOK] at h5
+      injection hs with hs; subst hs
+      refine ⟨rfl, h2, h3, rfl, ?_⟩
+      simp only [ScanOK]
+      rcases h5 with h | ⟨h, hkn⟩
       · exact Or.inl h
-      · subst h; exact Or.inr ⟨rfl, by simpa using h2.1⟩
+      · subst h; subst hkn
+        exact Or.inr ⟨rfl, by simpa using h2.1⟩
     · split at hs
       · injection hs with hs; subst hs
         rename_i hc
@@ -380,8 +408,9 @@ theorem DI_step (s s' : DSt) (e : DEv) (hs : dstep s e = some s') (h : DI s) : D
   · have := everKilled_back s s' e hs hk
     exact J_step s s' e hs this.2 (h.1 this.1)
   · have h2 := h.2
-    obtain ⟨⟨ph, fl, os, k, g⟩, old, sc, ek⟩ := s
+    obtain ⟨⟨ph, fl, os, k, g, kn⟩, old, sc, ek⟩ := s
     cases e <;> simp only [dstep] at hs
+    all_goals (try split at hs)
     all_goals (try split at hs)
     all_goals (try split at hs)
     all_goals (first | (injection hs with hs; subst hs; simp_all) | simp at hs)
@@ -412,12 +441,13 @@ theorem kill_freezes_worker (s : DSt) (hk : s.w.killed = true) (hos : s.w.osAliv
     dstep s .signalAlive = none ∧ dstep s .signalDead = none ∧ dstep s .processExit = none ∧ dstep s .restart = none := by
   simp [dstep, hk, hos]
 
-theorem death_detected (s : DSt) (h : DReachable s) (hk : s.w.killed = true) (hf : s.w.flag = true) (hi : s.scan = .idle) :
-    (drun s [.read, .read, .read, .read, .read]).map (·.scan) = some (.verdict true) := by
+theorem death_detected (s : DSt) (h : DReachable s) (hk : s.w.killed = true) (hf : s.w.flag = true)
+    (hkn : s.w.known = true) (hi : s.scan = .idle) :
+    (drun s [.read, .read, .read, .read, .read, .read]).map (·.scan) = some (.verdict true) := by
   have hos := (DI_reach s h).2 hk
-  obtain ⟨⟨ph, fl, os, k, g⟩, old, sc, ek⟩ := s
-  simp only at hk hf hi hos
-  subst hk hf hi hos
+  obtain ⟨⟨ph, fl, os, k, g, kn⟩, old, sc, ek⟩ := s
+  simp only at hk hf hkn hi hos
+  subst hk hf hkn hi hos
   simp [drun, dstep]
 
 end Mpire.Proofs.Watch
